@@ -228,11 +228,11 @@ int c05_run(const char *tier) {
 	int thorough = !strcmp(tier, "thorough");
 	static const char *vn[] = {"same-node", "two-nodes", "deferred-release", "wrap-255"};
 	long states = 0, transitions = 0, execs = 0; int exhaustive = 1; int minbound = 99;
-	for (int v = 0; v < 4; v++) {
-		for (int nt = 2; nt <= (thorough && v == 0 ? 3 : 2); nt++) {
+	for (int v8 = 0; v8 < 8; v8++) { int v = v8 % 4, up = v8 >= 4;      /* second round: a scheduling point after every unlock as well, one preemption less */
+		for (int nt = 2; nt <= (thorough && v == 0 && !up ? 3 : 2); nt++) {
 			uint8_t param[2] = {(uint8_t) v, (uint8_t) nt};
-			char label[64]; snprintf(label, sizeof label, "c05.sched variant=%s threads=%d", vn[v], nt);
-			e1_spec_t s = { .harness = "c05.sched", .param = param, .nparam = 2, .bound = thorough ? (nt == 3 ? 2 : 3) : 2, .label = label };
+			char label[96]; snprintf(label, sizeof label, "c05.sched variant=%s threads=%d%s", vn[v], nt, up ? " (points after unlocks)" : "");
+			e1_spec_t s = { .harness = "c05.sched", .param = param, .nparam = 2, .bound = (thorough ? (nt == 3 ? 2 : 3) : 2) - up, .label = label, .unlock_points = up };
 			e1_explore(&s);
 			for (int c = 0; c < 8; c++) { execs += s.schedules_by_cost[c]; }
 			states += s.distinct_outcomes; transitions += s.choice_points;
